@@ -4,7 +4,7 @@ import storecheck
 PLAN = {
     "mc": [("StoreMC_acct.cfg", False), ("StoreMC_d16.cfg", False)],
     "sims": [("StoreSim_seq.cfg", 250, 2500, 91), ("StoreSim_seqdoor.cfg", 100, 800, 91), ("StoreSim_delta.cfg", 800, 6000, 46)],
-    "drivers": [("TestVerif_StoreFree", 4, 30, "store_free.ndjson", None)],
+    "drivers": [("TestVerif_StoreFree", 4, 30, "store_free.ndjson", None), ("TestVerif_StoreLoad", 20, 200, "store_load.ndjson", None)],
     "assumptions": [
         "sequential programs (one client, up to 7 operations over 2 keys, costs 1..MaxSize+1, TTL none/1/2 ticks, doorkeeper on and off) are random walks of Store.tla with the maintenance and ticker steps interleaved at will, executed under the virtual clock",
         "eviction without reason: an EVICTED removal while the sum over live entries of the largest cost they had since the last drain is within MaxSize (sound upper bound of what the policy may count)",
